@@ -16,7 +16,7 @@ def run(ctx):
     s = json.load(open(os.path.join(d, 'summary.json')))
     if s['missing_lints']:
         ctx.drift.append('lints of the pair table that are not registered: %s' % s['missing_lints'])
-    rejects, lines = vlib.tlc_trace(ctx, 'Trace_Pairs', os.path.join(d, 'pairs.ndjson'), shards=8)
+    rejects, lines = vlib.tlc_trace(ctx, 'Trace_Pairs', os.path.join(d, 'pairs.ndjson'), header=1, shards=8)
     seen = {}
     for (ln, payload) in rejects:
         e = json.loads(lines[ln - 1])
@@ -28,13 +28,13 @@ def run(ctx):
         e = evs[0]
         # re-execute that object in a fresh process
         d2 = vlib.drive(ctx, exe, 'pairs', sub='confirm-' + str(len(ctx.violations) + len(ctx.known_hits)), extra=['-only', e['obj']], env={'VERIF_EXPORT': exp})
-        rj2, l2 = vlib.tlc_trace(ctx, 'Trace_Pairs', os.path.join(d2, 'pairs.ndjson'), shards=1)
+        rj2, l2 = vlib.tlc_trace(ctx, 'Trace_Pairs', os.path.join(d2, 'pairs.ndjson'), header=1, shards=1)
         again = [p for (_, pl) in rj2 for p in pl[0] if '%s:%s-vs-%s' % (p[0], LABEL.get(p[1], p[1]), LABEL.get(p[2], p[2])) == key]
         if not again:
             # the whole sweep once more (an input family that cannot be asked for by itself): the real code doing it twice confirms
             if full_again[0] is None:
                 d3 = vlib.drive(ctx, exe, 'pairs', sub='confirm-full', env={'VERIF_EXPORT': exp})
-                full_again[0] = vlib.tlc_trace(ctx, 'Trace_Pairs', os.path.join(d3, 'pairs.ndjson'), shards=8)[0]
+                full_again[0] = vlib.tlc_trace(ctx, 'Trace_Pairs', os.path.join(d3, 'pairs.ndjson'), header=1, shards=8)[0]
             again = [p for (_, pl) in full_again[0] for p in pl[0] if '%s:%s-vs-%s' % (p[0], LABEL.get(p[1], p[1]), LABEL.get(p[2], p[2])) == key]
         if not again:
             ctx.notes.append('unreproduced: %s on %s' % (key, e['obj']))
